@@ -413,4 +413,23 @@ def c20(ctx):
                  as_propfail=True, extra_args=("-surgery",))
 
 
-PLUGINS = {"C20": c20, "C14": c14, "C18": c18, "C15": c15, "C13": c13, "C08": c08, "C11": c11, "C02": c02, "C06": c06, "C10": c10, "C05": c05, "C09": c09, "C04": c04, "C07": c07, "C12": c12}
+def c01(ctx):
+    """C01 crash: generated histories (puts, deletes, bucket create/delete/move, multi-page values, open readers; page sizes 1024-16384, both backends, freelist-sync and grow-sync on/off) are run with
+    every WriteAt/Truncate/fdatasync/fsync recorded WITH its data; for every I/O event of every commit the post-crash file is rebuilt from the last durable image plus a subset of the 512-byte sectors
+    written since the last completed sync (none, all, each of the first 6 sectors alone / missing, the meta sector alone / missing, random subsets) and opened with the real Open in a child process:
+    content must be the acknowledged state, or the in-flight state iff its meta sector was persisted; Tx.Check clean; a follow-up write transaction and a reopen must work. A sample of the images is also
+    opened and decoded by the extracted Layout.open_model (K). NoSync mode and the initialisation of a brand-new file are excluded (documented caveats)."""
+    res = Result()
+    res.rule = ("one case = one history with all its crash images; evaluations = crash images opened; distinct by MD5 of options + in-flight dumps; non-trivial if some image had the in-flight meta sector persisted "
+                "and some did not")
+    with ctx:
+        quick = ctx.tier == "quick" or ctx.budget_s
+        runs = run_sharded(ctx, "c01", 8 if ctx.tier == "quick" else 16,
+                           lambda i: ["-seed", str(ctx.seed * 1000 + i), "-n", "5" if quick else "60", "-subsets", "6" if quick else "16", "-dir", "{dir}"],
+                           ctx.budget_s or (900 if ctx.tier == "quick" else 3300))
+        for r in runs:
+            absorb(res, "C01", *r)
+    return res
+
+
+PLUGINS = {"C01": c01, "C20": c20, "C14": c14, "C18": c18, "C15": c15, "C13": c13, "C08": c08, "C11": c11, "C02": c02, "C06": c06, "C10": c10, "C05": c05, "C09": c09, "C04": c04, "C07": c07, "C12": c12}
